@@ -19,8 +19,8 @@ RULE = (
     "containing it exactly). Non-trivial = length >= 2 and, for the bubble-point aware oil "
     "correlations, elements on both sides of the bubble point. Distinct = descriptor hash."
 )
-MIN_NONTRIVIAL = {"quick": 200, "thorough": 4000}
-SHARDS = {"quick": 1, "thorough": 8}
+MIN_NONTRIVIAL = {"quick": 200, "thorough": 40000}
+SHARDS = {"quick": 1, "thorough": 16}
 GENERATOR = {
     "pressure": "15..30000 psia (int32 p**2 overflows above 46340, outside any PVT range)",
     "oil": "C12 box (T 80..350, API 12..55, gg 0.56..1.3, GOR 20..2500, p_b > 50); in 35 % of the cases T, API and GOR are passed as Python ints",
@@ -72,7 +72,7 @@ def setup(ck):
 
 def generate(ck):
     rng = ck.rng
-    n = 420 if ck.tier == "quick" else 9000
+    n = 420 if ck.tier == "quick" else 60000
     descs = []
     k = 0
     for i in range(n):
@@ -225,6 +225,19 @@ def run_case(ck, desc):
         o[0] = float(round(o[0]))
     if desc.get("int_params"):
         o[1], o[3] = float(round(o[1])), float(round(o[3]))
+    # second call on the SAME buffer after the caller has overwritten its contents in place
+    if view.shape[0] >= 2 and view.dtype.kind == "f":
+        view *= 0.7
+        view += 11.0
+        out2 = np.asarray(arr_call(view))
+        for k in range(view.shape[0]):
+            x = float(view[k])
+            ref = float(sc_call(x))
+            tol = 256 * eps * abs(ref) + 4 * np.finfo(float).eps * abs(ref)
+            if not (abs(float(out2[k]) - ref) <= tol):
+                ck.violation("elementwise", {"fn": desc["fn"], "k": k, "p": x, "array": float(out2[k]), "scalar": ref, "buffer_reused_in_place": True}, desc)
+                break
+        ck.count("arrays_reused_in_place")
     pb = wl.bubblepoint(*o)
     p = view_before.astype(float)
     both_sides = bool(np.any(p < pb) and np.any(p >= pb))
